@@ -27,7 +27,7 @@ META = dict(
                 '"Never modifies its inputs" and "deterministic function of seed and inputs" are definitional in a pure model: decided by the oracle only '
                 '(pg.to_json of every input incl. metadata and the shape of the input list before/after; two runs with equal seeds compared by value and identity pattern). '
                 'Not modelled: Mersenne Twister (draws are recorded), the iteration order of Python sets of DNAs (recorded as a permutation), float rounding '
-                '(dyadic floats; cases whose averages leave the 1/64 grid are checked by the oracle only), custom decision points (oracle only), scalars schedules.'),
+                '(dyadic floats; cases whose averages leave the 1/64 grid are checked by the oracle only), user functions of custom decision points (none is given: NotImplementedError, modelled), scalars schedules.'),
     rule=('a case is (specification, operator expression, population with identities and fitness, recorded draws); distinct by its wire text; '
           'non-trivial when the expression contains a mutator or recombinator and the run draws at least once, or is a selector on a population of >= 2'),
     trusted_base=['extraction: ExtrOcamlBasic only; ocaml/main.ml lexer/printer; cross-checked against vm_compute on a sample',
@@ -853,7 +853,6 @@ def run(ctx):
   def has_custom(s):
     return any(p[0] == 'X' or (p[0] == 'C' and any(has_custom(c) for c in p[2])) for p in s[1])
   def add(kind, s, expr, pop, seed=None):
-    if has_custom(s): kind = 'oracle-only/custom-points/' + kind      # random_dna_fn is user code: such spaces go to the oracle only
     cases.append(dict(kind=kind, spec=s, expr=expr, pop=pop, seed=rng.randint(0, 10 ** 6) if seed is None else seed))
   for name, s, expr, pop, seed in CORPUS:
     add('corpus:' + name, s, expr, pop, seed)
